@@ -20,6 +20,11 @@ func NewLinearHist(min, max float64, nbins int) *LinearHist {
 }
 
 func (h *LinearHist) bin(x float64) int {
+	if x < h.min {
+		// The conversion below truncates toward zero, which
+		// would count values just below min in bin 0.
+		return -1
+	}
 	return int(h.delta * (x - h.min))
 }
 
